@@ -149,7 +149,7 @@ def kk(draw, recipe):
 GG_COPLANAR = ("equal", "share-vertex", "share-edge-full", "share-edge-part", "translated", "nested", "overlap", "disjoint")
 GG_CROSSING = ("through", "edge-on-plane", "vertex-touch", "parallel-plane")
 GK = ("face", "face-shifted", "face-bigger", "face-smaller", "section-big", "section-small", "section-partial", "touch-V", "touch-E", "inside", "free")
-KK = ("equal", "translate-vertex", "translate-half", "glue-face", "glue-face-part", "share-edge", "share-vertex", "nested", "independent")
+KK = ("equal", "translate-vertex", "translate-half", "glue-face", "glue-face-part", "share-edge", "share-vertex", "nested", "inscribed", "independent")
 
 
 def strata(tier):
